@@ -151,10 +151,13 @@ class VCSAPI:
         status_output = self('status')
         status_items  = [self._parse_status_line(line) for line in status_output.splitlines()]
 
+        # The vcs reports normalized paths, the config may say "./setup.py" or "docs/../setup.py"
+        required_paths = {os.path.normpath(filepath) for filepath in required_files}
+
         return [
             filepath.strip()
             for status, filepath in status_items
-            if filepath.strip() in required_files or status != "??"
+            if os.path.normpath(filepath.strip()) in required_paths or status != "??"
         ]
 
     def _parse_status_line(self, line: str) -> typ.Tuple[str, str]:
@@ -274,7 +277,8 @@ def assert_not_dirty(vcs_api: VCSAPI, filepaths: typ.Set[str], allow_dirty: bool
     if not allow_dirty and dirty_files:
         sys.exit(1)
 
-    dirty_pattern_files = set(dirty_files) & filepaths
+    pattern_paths       = {os.path.normpath(filepath) for filepath in filepaths}
+    dirty_pattern_files = {dirty_file for dirty_file in dirty_files if os.path.normpath(dirty_file) in pattern_paths}
     if dirty_pattern_files:
         logger.error("Not commiting when pattern files are dirty:")
         for dirty_file in dirty_pattern_files:
